@@ -243,6 +243,17 @@ def scenarios(ctx, hists):
             for r, _, _ in lst:
                 if r in ("APP_ROOT", "APP_LOCAL_1", "RAD_LOCAL_1") and rng.random() < 0.5:
                     kconf[r] = ["ACME Corp", f"acme {r.lower()}"]
+        elif k % 4 == 1 and h["fault"] == "none":
+            # the build configuration re-assigns classes that also have a DEFAULT role: two roles of the list exchange
+            # their default classes, or a role takes over the default class of a role that is not in the list
+            have = [r for r, _, _ in lst if r in DEFAULT_CLASS[h["soc"]] and r not in kconf]
+            if len(have) >= 2:
+                a, b = have[0], have[1]
+                kconf[a] = ["nordicsemi.com", DEFAULT_CLASS[h["soc"]][b]]
+                kconf[b] = ["nordicsemi.com", DEFAULT_CLASS[h["soc"]][a]]
+            elif len(have) == 1:
+                others = [r for r in DEFAULT_CLASS[h["soc"]] if r not in [x[0] for x in lst]]
+                kconf[have[0]] = ["nordicsemi.com", DEFAULT_CLASS[h["soc"]][others[k % len(others)]]]
         via = "lib"
         if k % 7 == 0 and h["soc"] == "nrf54h20":
             via = "cli"
